@@ -280,7 +280,7 @@ def concrete_failures(Cmod, r):
 
 
 def transform_frame_obligations(T, mods):
-    """read-only uses of a transform (forward, backward, jacobian on an input vector) leave its parameter values, constants and bounds
+    """read-only uses of a transform (forward, backward, jacobian on an input vector, sampling and scoring its parameters) leave its parameter values, constants and bounds
     unchanged: Engine P runs the real methods on symbolic parameters / constants / input; per path the vectors afterwards equal the ones before"""
     from contracts.py_transform import CLASSES
     from props.C01 import SymTransform
@@ -289,14 +289,19 @@ def transform_frame_obligations(T, mods):
     for spec in CLASSES:
         kw = spec['variants'][0]
         st = SymTransform(T, spec['name'], kw)
-        for op in ('forward', 'backward', 'jacobian'):
+        for op in ('forward', 'backward', 'jacobian', 'params_sample', 'params_logprior'):
             def run():
                 tr = st.instance()
                 before = (list(tr._params._values), list(tr._constants._values), tr._params._mins.copy(), tr._params._maxs.copy(), tr._params._defaults.copy(),
                           tr._constants._mins.copy(), tr._constants._maxs.copy(), tr._constants._defaults.copy(), list(tr._params._names), list(tr._constants._names))
                 raised = None
                 try:
-                    getattr(tr, op)(vec([x]))
+                    if op == 'params_sample':
+                        tr.params_sample(4)
+                    elif op == 'params_logprior':
+                        tr.params_logprior()
+                    else:
+                        getattr(tr, op)(vec([x]))
                 except (engp.Unsupported, engp.PathLimit):
                     raise
                 except Exception as e:          # a rejected input: the frame must hold all the same
